@@ -345,9 +345,10 @@ Theorem C16_success_complete : forall (is : list item) (xml : list N) (i : N), 1
   d_bytes (pw_dev (fst (pw_drop (fst (wrun (fault_prog is xml) pw0))))).
 Proof.
   intros is xml i Hi Hok.
-  destruct (wrun_sim _ _ (wstrict_fault_prog is xml) i pw0 (pw0f i) (ptwin_pw0 i Hi)) as [[Ht Hr]|[_ [e E]]];
-    [|rewrite E in Hok; discriminate].
-  rewrite Hok in Hr. symmetry in Hr.
+  pose proof (wrun_sim unit (fault_prog is xml) (wstrict_fault_prog is xml) i pw0 (pw0f i) (ptwin_pw0 i Hi)) as Hs.
+  revert Hok Hs. generalize (pw0f i). intros sf Hok Hs.
+  destruct Hs as [[Ht Hr]|[_ [e E]]]; [|congruence].
+  assert (Hr' : snd (wrun (fault_prog is xml) pw0) = Ok tt) by congruence. clear Hr. rename Hr' into Hr.
   pose proof (fault_prog_ends_flushed is xml Hr) as Hst. cbv zeta in Hst.
   rewrite !pw_drop_fst.
   destruct (flush_fault_bytes i _ _ Ht) as [E|E]; rewrite E; [symmetry; exact Hst|reflexivity].
